@@ -367,7 +367,7 @@ def _as_samples_iterator(samples_like: collections.abc.Iterator[SampleLike],
             if set(labels) ^ first_set:
                 raise ValueError
             # do a bit of reindex
-            reindex = [first_labels.index(v) for v in labels]
+            reindex = [labels.index(v) for v in first_labels]
             samples = samples[:, reindex]
 
         samples_stack.append(samples)
